@@ -4,7 +4,7 @@ MONITORS = ["C05", "C18"]
 N_QUICK, N_THOROUGH = 400, 4000
 COMMON = {"chain_frac": 0.4}
 ASSUMPTIONS = ["objectives finite-valued on the box (no NaN)", "user functions deterministic"]
-RULE = ("random runs in all gradient modes; result and every callback state: fun/jac recomputed from the harness's own closures "
+RULE = ("random runs in all gradient modes, plus a family run far into the stagnation regime (ftol = gtol = 0, hundreds of iterations on small convex problems: the last steps are a few units in the last place); result and every callback state: fun/jac recomputed from the harness's own closures "
         "and compared bit for bit; nfev/njev compared with the harness's call log; non-trivial = at least one iteration")
 
 
